@@ -122,7 +122,7 @@ where
             mem_builder: self.mem_builder.clone(),
             mem_handle: self.mem_handle.clone(),
             capacity: self.capacity,
-            len: self.capacity,
+            len: self.len,
             element_layout: self.element_layout,
             element_typeid: self.element_typeid,
             element_drop: self.element_drop,
